@@ -108,6 +108,18 @@ def run(ctx):
             with open(p, 'wb') as f:
                 f.write(data)
             files[('decompress', 'planted-late-failing-candidates', m)] = p
+    for m in mult[:3]:
+        p = os.path.join(wd, 'ramp%d' % m)
+        total = unit * m
+        with open(p, 'wb') as f:
+            done = 0
+            step = 300000
+            while done < total:
+                frac = done / total                      # share of incompressible bytes grows along the file
+                k = int(step * frac)
+                f.write(rnd.randbytes(k) + b'\0' * (step - k))
+                done += step
+        files[('compress', 'ramp-less-and-less-compressible', m)] = p
     ws = [1, 2, 4, 8]
     table = []
     jobs = []
